@@ -219,6 +219,7 @@ static void case_layout(const Args &a, long idx, bool wantDesc, CaseResult &res,
     long initOverlaps = 0; for (unsigned i = 0; i < n; i++) for (unsigned j = i + 1; j < n; j++) { double ox = std::min(rs[i]->getMaxX(), rs[j]->getMaxX()) - std::max(rs[i]->getMinX(), rs[j]->getMinX()), oy = std::min(rs[i]->getMaxY(), rs[j]->getMaxY()) - std::max(rs[i]->getMinY(), rs[j]->getMinY()); if (ox > 1e-3 && oy > 1e-3) initOverlaps++; }
     res.nontrivial = overlapMode ? initOverlaps > 0 : initiallyViolated;
 
+    if (getenv("VERIF_TRACE")) { printf("%s\n", desc.c_str()); fflush(stdout); }
     cola::UnsatisfiableConstraintInfos ux, uy;
     struct UG { cola::UnsatisfiableConstraintInfos &a, &b; ~UG() { for (auto p : a) delete p; for (auto p : b) delete p; } } ug{ux, uy};
     int efd = dup(2); int nul = open("/dev/null", O_WRONLY); dup2(nul, 2); close(nul);
